@@ -7,6 +7,7 @@ pub mod lemmas { use vstd::prelude::*;
 pub mod code { use vstd::prelude::*; use core::cmp::Ordering; broadcast use super::lemmas::lemma_div_ge1;
 //@include shims/duration.rs
 //@include shims/duration_ops.rs
+pub const TOTP_DEFAULT_STEP: u64 = @@const:TOTP_DEFAULT_STEP@@;
 //@extract TotpError
 //@extract TotpDigits
 //@extract TotpAlgo
